@@ -19,6 +19,11 @@ CLAIMS = {
   text="Machine-checked proofs over the line state machine model, for every configuration: outside a diff (before the first construct or in commit metadata) a line that begins with none of the construct-opening markers is emitted unchanged and leaves the machine where it is (C04_passthrough_line); a block of such lines extends the rendered history by exactly those lines, in order (C04_passthrough_block). On the real binary raw bytes are compared (no terminal decoding): pure text streams with embedded SGR sequences, CR variants, tabs and Unicode come out byte-identical up to the three permitted normalisations; text before diffs and commit messages between commits appear unchanged, whole-line and in order, under 18 option sets.",
   note="Trusted: Coq kernel; harness; the model does not distinguish raw from stripped lines (the byte-level claim, incl. colours, is decided on the implementation); blame-like, JSON-like and grep-like lines are construct openers and excluded from the generated text. No axioms.",
   design="§6 C04"),
+ "C05": dict(
+  technique="Coq proof (counter semantics of the unified painting order and of the side-by-side row loop with its correction, for every row sequence) + gutter correspondence and model-free number oracle on the binary",
+  text="Machine-checked proofs over the model of linenumbers_and_styles / paint_line's increment flag / the side-by-side row loop: in the unified view the k-th painted line shows old start + (removed and unchanged lines before it) and/or new start + (added and unchanged lines before it), nothing on continuation rows (C05_unified); in side-by-side view, for every sequence of rows — any pairing, any wrap counts, placeholders painted in the opposite state, the left-counter correction at the end of the loop body — each line's true number is shown on the first row of that line on its own side, nothing on continuation rows and placeholder halves, and the counters end at start + lines per side (C05_side_by_side). Tie: gutters decoded from the binary's rows (sentinel number formats) equal the extracted model run on each hunk's painting order; model-free oracle: every removed / added / unchanged line's row carries the numbers computed from the hunk header and the lines before it, in both views, with wrapping, starts up to 2*10^7, omitted counts, five number formats including formats that put {nm} and {np} in one field or swap them.",
+  note="Trusted: Coq kernel; harness (gutter regexes, token placement); the side-by-side row structure is read from the output by the oracle (the model's row loop is proved for every row sequence); the hunk-header position/path clause is decided by C14's header oracle. No axioms.",
+  design="§6 C05"),
  "C06": dict(
   technique="Coq proof (tokens partition the line; row-by-row table = recursive specification; read-back is a valid edit script given the common first token; kept tokens are common) + exhaustive white-box correspondence of tokenize / Alignment::operations + clause oracle on infer_edits",
   text="Machine-checked proofs: the tokens of a line concatenate to the line and begin with the empty token (C06_tokenize_partition); the table the code fills row by row equals, cell by cell, the recursive specification of the gap-open distance with candidate order Insertion/Deletion/NoOp and first-minimum tie-breaking (C06_table_is_specification); for all token lists with a common first token the operations read back — with the code's stop rule 'parent index 0' — are a valid edit script (C06_operations_valid), so deleting the tokens marked deleted from the old line and those marked inserted from the new line leaves the same tokens (C06_emphasis_sound). Tie: tokenize and Alignment::operations through the hook driver equal the extracted model on all pairs of token sequences up to length 4/5 over {a, b, space} and on random realistic lines. Oracle on the implementation's infer_edits (model-free): sections concatenate to the line, removing emphasised sections from a pair leaves equal text, unpaired lines and identical pairs carry no emphasis, pairs never cross, threshold 1 pairs line i with line i, threshold 0 pairs only whitespace-only differences, one replaced run gives one emphasised stretch.",
